@@ -334,6 +334,7 @@ def handle (d : DSt) (line : String) : DSt × String :=
   | "U" :: rest => handleU d rest
   | "C" :: rest => handleC d rest
   | "P" :: rest => handleP d rest
+  | "X" :: _ => (d, "inconclusive")  -- a history the harness abandoned (its goroutines were not scheduled in time)
   | _ => (d, "bad-op")
 
 def main : IO Unit := lineLoopS ({} : DSt) handle
